@@ -98,7 +98,7 @@ Print Assumptions pv_cache_invisible.
 (* ... and that is the uninterpreted function of the CURRENT contents of the object ... *)
 Theorem pv_read_current : forall pvf w r s what k a l m,
   assoc_z s w = Some (k, a, l, m) ->
-  (what =? 5) || (what =? 6) || (what =? 8) = false -> (what =? 4) && (k =? 4) = false ->
+  pv_linked what = false -> (what =? 4) && (k =? 4) = false ->
   snd (pvstep pvf false false (w, r) (PRead s what))
   = match pvf (what * 100 + k * 10) [a] with None => None | Some v => Some (v, 0) end.
 Proof. exact pv_read_plain_lemma. Qed.
@@ -107,7 +107,7 @@ Print Assumptions pv_read_current.
 (* ... and of the object it is linked to (`other`, `ref_pos`) ... *)
 Theorem pv_read_linked_current : forall pvf w r s what k a t m k2 a2 l2 m2,
   assoc_z s w = Some (k, a, Some t, m) -> assoc_z t w = Some (k2, a2, l2, m2) ->
-  (what =? 5) || (what =? 6) || (what =? 8) = true ->
+  pv_linked what = true ->
   snd (pvstep pvf false false (w, r) (PRead s what))
   = match pvf (what * 100 + k * 10 + k2) [a; a2] with None => None | Some v => Some (v, 0) end.
 Proof. exact pv_read_linked_lemma. Qed.
